@@ -252,6 +252,39 @@ class History:
                 else:
                     d["flags"].add("disk-reread")
 
+    def op_close_in_flight(self, k):
+        """The user types and closes the tab at once: the didChange handler is still waiting for the configuration when
+        the didClose is handled. Whatever the resumed handler does, the closed document's last publish stays empty."""
+        d = self.docs[k]
+        s = self.server
+        text = "Closing text has a %s in it. %s" % (self.rng.choice(WORDS), model.make_text(self.rng, WORDS, 1))
+        self.trace.append({"op": "didChange + didClose before the configuration reply", "doc": k, "text": text})
+        s.hold_config = True
+        before = len(s.held)
+        kind = self.rng.choice(["didChange", "didSave"] if d["path"] else ["didChange"])
+        if kind == "didChange":
+            s.notify("textDocument/didChange", {"textDocument": {"uri": d["uri"], "version": 9}, "contentChanges": [{"text": text}]})
+        else:
+            s.notify("textDocument/didSave", {"textDocument": {"uri": d["uri"]}})
+        realised = True
+        try:
+            s.pump(lambda: len(s.held) > before, 10)
+        except client.Timeout:
+            realised = False
+        n = s.n_publishes(d["uri"])
+        s.notify("textDocument/didClose", {"textDocument": {"uri": d["uri"]}})
+        self.wait(lambda: s.n_publishes(d["uri"]) > n)
+        s.hold_config = False
+        for h in list(s.held):
+            s.release(h)
+        try:
+            s.pump(lambda: False, 0.6)
+        except (client.Timeout,):
+            pass
+        if realised:
+            self.stats["closed_in_flight"] = self.stats.get("closed_in_flight", 0) + 1
+        d.update(open=False, flags=set(), last_text=text if kind == "didChange" else d["client_text"])
+
     def op_late(self, k):
         """A request that names a document after it was closed (a save or a dictionary quick fix that was in
         flight with the close): the closed document must stay without diagnostics."""
@@ -409,7 +442,10 @@ def run_history(base, refbase, idx, seed, tier):
             elif r < 0.86:
                 h.op_config()
             elif r < 0.93:
-                h.op_close(rng.choice(opened))
+                if rng.random() < 0.4:
+                    h.op_close_in_flight(rng.choice(opened))
+                else:
+                    h.op_close(rng.choice(opened))
             else:
                 k = rng.choice(opened)
                 if h.docs[k]["path"]:
